@@ -135,8 +135,8 @@ CHECKS['C01'] = dict(
           'for EVERY well-formed compact tree (unsigned integers, cell names, plain string literals, the twelve binary '
           'operators, signs, %, calls) the parser model — tokeniser loop with its ten filters and the shunting-yard '
           'they drive — reads the text without blanks and with the necessary parentheses back as the tree '
-          '(XL.Proofs.LexText/LexTree: each filter cuts off exactly the next token); tokens_to_text. Texts with '
-          'blanks, other literal forms, names, arrays and range operators are not covered by a theorem (DESIGN '
+          '(XL.Proofs.LexText/LexTree: each filter cuts off exactly the next token); tokens_to_text; blanks_between_tokens — the same with any numbers of blanks wherever the tokeniser admits them (XL.Proofs.LexBlanks: GapsOK, safeG_of, lexLoop_textG). Other '
+          'literal forms, names, arrays and range operators are not covered by a theorem (DESIGN '
           '§9.2): pairs/triples cover the operator vocabulary on the text and the correspondence the rest. The model is '
           'compared with Parser().ast on every generated spelling (exhaustive pairs/triples, random trees to depth 5 '
           'in minimal and decorated spellings); the rendering of the parsed tree is compared with the rendering of the '
@@ -221,7 +221,7 @@ CHECKS['C09'] = dict(
           'tokeniser as exactly one string literal whose body is the doubled text) — the part of the export that had '
           'the defects repaired by a fix: commit; export_reparse_instances (kernel-checked instances of "exported '
           'text parses back to itself"); export_reparses — for EVERY canonical tree the exported (fully parenthesised) '
-          'token list parses back to the tree, any depth; export_text_reparses / export_text_fixed_point — the same ON THE CHARACTERS: for every render-stable tree the parser model (tokeniser loop with blanks, ten filters, shunting-yard) reads "=" followed by the exported text back as the tree (XL.Proofs.LexBlanks; driver command rtext: the implementation must re-export exactly that text); signrun_export_counterexample (known finding); '
+          'token list parses back to the tree, any depth; export_text_reparses / export_text_fixed_point — the same ON THE CHARACTERS: for every render-stable tree the parser model (tokeniser loop with blanks, ten filters, shunting-yard) reads "=" followed by the exported text back as the tree (XL.Proofs.LexBlanks; driver command rtext: the implementation must re-export exactly that text); export_text_any_blanks — the same for every placement of blanks the tokeniser admits (GapsOK), of which the one render writes is an instance; signrun_export_counterexample (known finding); '
           'blank_listing_schedule_independent / _order_independent / _fixed_point — the cells exported as #EMPTY are '
           'the least stable listing of range assembly whatever the schedule, and a second export lists nothing new '
           '(XL.Proofs.Blanks; the model closure is compared with _assemble_ranges on random range sets). The check runs json.dumps(to_dict()) -> from_dict -> calculate -> to_dict '
